@@ -278,6 +278,19 @@ def run_shard(ctx):
         ctx.seen('trace_specs', repr(spec))
         ctx.seen('entries', entry)
         full_check(ctx, cls, n, scripts, opts, spec, entry, arg, opts['tol'], faults, case, repeat)
+    # long traces: one period solved over far more passes than usual, and one period re-solved many times with reset=False
+    # (a trace is faithful whatever its length)
+    for k, (cls, spec, passes, repeat) in enumerate([(T, True, 140, 1), (T2, True, 135, 1), (T, ['B', 'A', 'X'], 150, 1), (T, ['A', 'B'], 30, 6), (T2, 'A', 200, 1), (T, True, 12, 14)]):
+        if not ctx.mine(k):
+            continue
+        n = 3
+        scripts = {t: [('big', 'same')] * passes for t in range(n)}
+        opts = dict(min_iter=0, max_iter=passes + 10, tol=0.5, failures='ignore', errors='ignore', catch_first_error=True)
+        case = dict(n=n, cls=cls.__name__, trace=spec, entry='solve_t', arg=1, arg_numpy=False, touch_exog=False, opts=opts, faults=[None, None], repeat=repeat, interlude='none',
+                    twin='same', scripts={str(t): v for t, v in scripts.items()})
+        ctx.evaluation(('long-trace', k), nontrivial=True, sample={'long_trace': k, 'passes': passes, 'repeat': repeat})
+        ctx.count('long_trace_cases')
+        full_check(ctx, cls, n, scripts, opts, spec, 'solve_t', 1, 0.5, (None, None), case, repeat)
     parser_models(ctx)
 
 
